@@ -21,8 +21,9 @@ open CTV CTV.SigV CTV.SigInput CTV.DerSig
 declared signature algorithm is the one of the key's type, the key is not a nil pointer, and either (RSA) the
 primitive accepts the octets as carried, or ((EC)DSA) the octets are `DER(SEQUENCE{r, s …extra})` followed by
 anything, with `0 < r`, `0 < s`, the primitive accepting `(r, s)` — where `extra`, octets after `s` *inside* the
-SEQUENCE, must be empty only if the code has the exactness check (`Gen.sigExactDER`, regenerated; `false` on the
-tree as found: that is the C05 known finding).  The length bound is the fork's "length too large" rule. -/
+SEQUENCE, must be empty exactly if the code has the exactness check (`Gen.sigExactDER`, regenerated; it was `false` on
+the tree as found — the C05 finding, fixed by 1a2a72f — and is `true` now: see `verify_iff_canonical`).  This form never
+unfolds the flag, so it holds for both trees.  The length bound is the fork's "length too large" rule. -/
 theorem verify_iff (P : Prims) (key : Key) (data : Bytes) (ds : DigitallySigned) :
     verifySignature P key data ds = .ok ↔
       ∃ h, rfcHash ds.hash = some h ∧ key.isNil = false ∧
@@ -90,22 +91,57 @@ example : parseSigPair [0x30, 7, 2, 2, 0, 1, 2, 1, 1] = none ∧ parseSigPair [0
 example : parseSigPair [0x30, 6, 2, 1, 0xff, 2, 1, 0] = some ⟨-1, 0, [], []⟩ ∧ derSig (-1) 0 = [0x30, 6, 2, 1, 0xff, 2, 1, 0] ∧
     derSig 128 (-129) = [0x30, 8, 2, 2, 0, 0x80, 2, 2, 0xff, 0x7f] := by decide
 
-/- FULL (the property as stated — "bytes trailing a complete DER-encoded ECDSA or DSA value are ignored", nothing else):
-     verifySignature … = .ok ∧ (EC)DSA  →  ∃ r s rest, ds.sig = derSig r s ++ rest ∧ 0 < r ∧ 0 < s ∧ prim … (r, s)
-   It is not provable for the tree as found: `Gen.sigExactDER` is `false` for both codes (octets after `s` inside the
-   SEQUENCE are dropped silently by asn1.Unmarshal) — known finding of C05, fixes/C05-1.diff.  With the exactness check
-   present the statement is the theorem below; `verify_iff` above is the exact characterisation in both cases. -/
-theorem accepted_pair_is_exact_partial (P : Prims) (key : Key) (data : Bytes) (ds : DigitallySigned)
-    (ha : ds.sigAlg = 2 ∨ ds.sigAlg = 3) (hx : Gen.sigExactDER ds.sigAlg = true)
-    (h : verifySignature P key data ds = .ok) :
+/-- the exactness check of the (EC)DSA cases (`checkExactDER`: the octets before `rest` must equal the re-marshalled
+`SEQUENCE{r, s}`) is present in tls/signature.go — **regenerated** from the source on every run.  On a tree without
+the check (`fix: (EC)DSA signature verification accepted extra elements inside the DER SEQUENCE` reverted) this is
+`false`, this lemma and the two theorems below stop compiling, and the harness shows the accepted octets. -/
+theorem exact_der_check_present (a : Nat) (ha : a = 2 ∨ a = 3) : Gen.sigExactDER a = true := by
+  rcases ha with rfl | rfl <;> rfl
+
+/-- **accepted_pair_is_exact** (the property as stated — "bytes trailing a complete DER-encoded ECDSA or DSA value are
+ignored", and nothing else is): an accepted (EC)DSA signature value is exactly `DER(SEQUENCE{INTEGER r, INTEGER s})`
+followed by arbitrary octets, with `0 < r`, `0 < s`, and the primitive accepted `(r, s)` over the digest of the data. -/
+theorem accepted_pair_is_exact (P : Prims) (key : Key) (data : Bytes) (ds : DigitallySigned)
+    (ha : ds.sigAlg = 2 ∨ ds.sigAlg = 3) (h : verifySignature P key data ds = .ok) :
     ∃ hid r s rest, rfcHash ds.hash = some hid ∧ ds.sig = derSig r s ++ rest ∧ 0 < r ∧ 0 < s ∧
       P.prim key hid (P.digest hid data) (.pair r s) = true := by
   obtain ⟨hid, hh, _, hor⟩ := (verify_iff P key data ds).mp h
   rcases hor with ⟨h1, _⟩ | ⟨_, r, s, extra, rest, e, _, hex, hr, hs, hp⟩
   · omega
-  · have := hex hx
+  · have := hex (exact_der_check_present ds.sigAlg ha)
     subst this
     exact ⟨hid, r, s, rest, hh, e, hr, hs, hp⟩
+
+/-- **verify_iff, canonical form.** With the exactness check in the code, `verify_iff` reads: `tls.VerifySignature`
+passes iff hash ∈ RFC 5246's six ∧ the algorithm is the key's ∧ ((RSA ∧ prim on the octets) ∨ ((EC)DSA ∧ ∃ r s rest,
+sig = der(r, s) ++ rest ∧ r > 0 ∧ s > 0 ∧ prim on (r, s))). -/
+theorem verify_iff_canonical (P : Prims) (key : Key) (data : Bytes) (ds : DigitallySigned) :
+    verifySignature P key data ds = .ok ↔
+      ∃ h, rfcHash ds.hash = some h ∧ key.isNil = false ∧
+        ((ds.sigAlg = 1 ∧ key.kind = .rsa ∧ P.prim key h (P.digest h data) (.raw ds.sig) = true) ∨
+         ((ds.sigAlg = 2 ∧ key.kind = .dsa ∨ ds.sigAlg = 3 ∧ key.kind = .ecdsa) ∧
+            ∃ r s rest, ds.sig = derSig r s ++ rest ∧ (derInt r ++ derInt s).length < 2^31 ∧
+              0 < r ∧ 0 < s ∧ P.prim key h (P.digest h data) (.pair r s) = true)) := by
+  rw [verify_iff]
+  constructor
+  · rintro ⟨h, hh, hn, hor⟩
+    refine ⟨h, hh, hn, ?_⟩
+    rcases hor with hrsa | ⟨hk, r, s, extra, rest, e, hsz, hex, hr, hs, hp⟩
+    · exact Or.inl hrsa
+    · have ha : ds.sigAlg = 2 ∨ ds.sigAlg = 3 := by rcases hk with ⟨h2, _⟩ | ⟨h3, _⟩ <;> omega
+      have := hex (exact_der_check_present ds.sigAlg ha)
+      subst this
+      exact Or.inr ⟨hk, r, s, rest, e, by simpa using hsz, hr, hs, hp⟩
+  · rintro ⟨h, hh, hn, hor⟩
+    refine ⟨h, hh, hn, ?_⟩
+    rcases hor with hrsa | ⟨hk, r, s, rest, e, hsz, hr, hs, hp⟩
+    · exact Or.inl hrsa
+    · exact Or.inr ⟨hk, r, s, [], rest, e, by simpa using hsz, fun _ => rfl, hr, hs, hp⟩
+
+example : derSig 1 1 ++ [0xaa, 0xbb] = [0x30, 6, 2, 1, 1, 2, 1, 1, 0xaa, 0xbb] ∧ (derInt 1 ++ derInt 1).length < 2^31 := by decide
+/-- octets after `s` inside the SEQUENCE are refused; octets after the SEQUENCE are ignored -/
+example : verifySignature ⟨fun _ m => m, fun _ _ _ _ => true⟩ { kind := .ecdsa } [7] ⟨4, 3, [0x30, 8, 2, 1, 1, 2, 1, 1, 5, 0]⟩ = .err ∧
+    verifySignature ⟨fun _ m => m, fun _ _ _ _ => true⟩ { kind := .ecdsa } [7] ⟨4, 3, [0x30, 6, 2, 1, 1, 2, 1, 1, 5, 0]⟩ = .ok := by decide
 
 /-- **mismatch_is_error.** When the declared signature algorithm is not the one of the key's type (including every
 code RFC 5246 does not assign to RSA/DSA/ECDSA, and every key type without a code such as Ed25519), the answer is an
